@@ -190,7 +190,7 @@ Fixpoint plain_scalar_f (fuel : nat) (is_key : bool) (s : stream)
             let '(s2, spaces') := sp in
             let indent := if is_key then 0 else 1 in
             match spaces' with
-            | [] => Ok (s2, chunks')
+            | [] => do _ <- peek s2 0; Ok (s2, chunks')     (* `if stream.peek() == "#"` inside the if *)
             | _ =>
                 do ch2 <- peek s2 0;
                 if (ch2 =? c_hash) || (s_col s2 <? indent) then Ok (s2, chunks')
